@@ -102,9 +102,18 @@ def co_selection(ctx, tk, f):
         return
     terms = {repr(v[0]) for v in sel.values()}
     ctx.decide("C12.b", f, what, len(terms) == 1, "selectors differ: %s" % {k: str(v[0]) for k, v in sel.items()}, node=list(sel.values())[0][1].ast, engine="E6")
-    need = {"keys", "view"}
-    ctx.decide("C12.b", f, "the samples and the bucket views are both filtered", True if need <= set(sel) else False,
-               "only %s are filtered: samples and views go out of step" % sorted(sel), key="both", engine="E6")
+    # which of the filtered variables are the samples / the bucket views (by what they are derived from)
+    kinds = set()
+    for name, (t, n) in sel.items():
+        base = fa.term(n.ast.value.value, n)
+        if any(x.k == "call" and x.a[0].k == "attr" and x.a[0].a[1] == "view" for x in walk(base)):
+            kinds.add("views")
+        elif any(x.k == "call" and x.a[0].k == "attr" and x.a[0].a[1] == "_get_hash" for x in walk(base)):
+            kinds.add("hashes")
+        elif any(x.k == "param" and x.a[0] == f.params[1] for x in walk(base)):
+            kinds.add("samples")
+    ctx.decide("C12.b", f, "the samples and the bucket views are both filtered", True if {"samples", "views"} <= kinds else False,
+               "only %s are filtered: samples and views go out of step" % sorted(kinds), key="both", engine="E6")
     t = list(sel.values())[0][0]
     okm = np_call(t, {"flatnonzero"}) and t.a[1] and t.a[1][0].k == "attr" and t.a[1][0].a[1] == "lengths"
     ctx.decide("C12.b", f, "the selector keeps the samples whose bucket is non-empty", True if okm else None, key="selector", engine="E1")
